@@ -93,6 +93,9 @@ func outLast() any                               { return nil }
 //@ ensures [C04] nul-rejected: r0 != 0
 //@ ensures [C04] stop-before-end-is-error: r0 == -1 && old(l.srcPos) < l.srcEnd ==> len(l.errors) == old(len(l.errors)) + 1
 //@ ensures [C03 C04] ascii: old(l.srcPos) < l.srcEnd && l.srcBuf[old(l.srcPos)] < 128 && l.srcBuf[old(l.srcPos)] != 0 ==> r0 == rune(l.srcBuf[old(l.srcPos)]) && l.lastCharLen == 1
+//@ ensures [C03 C04] ascii-result-is-that-byte: r0 >= 0 && r0 < 128 ==> l.lastCharLen == 1 && r0 == rune(l.srcBuf[old(l.srcPos)])
+//@ ensures [C04] lone-high-byte-rejected: old(l.srcPos) < l.srcEnd && l.srcBuf[old(l.srcPos)] >= 128 && r0 >= 0 ==> l.lastCharLen >= 2 && r0 >= 128
+//@ ensures [C02 C03] multibyte-accepted: old(l.srcPos) < l.srcEnd && l.srcBuf[old(l.srcPos)] >= 128 && l.lastCharLen > 1 ==> r0 > 0 && len(l.errors) == old(len(l.errors))
 //@ ensures [C04] errors-only-grow: len(l.errors) >= old(len(l.errors))
 //@ ensures [C04] buffer-unchanged: sameSlice(l.srcBuf, old(l.srcBuf)) && l.srcEnd == old(l.srcEnd) && l.tokPos == old(l.tokPos)
 
@@ -233,6 +236,7 @@ func outLast() any                               { return nil }
 //@ ensures [C04] stop-is-error-or-eof: r0 < 0 ==> r0 == -1
 //@ ensures [C03 C04] nul-rejected: len(l.errors) == old(len(l.errors)) ==> ncalls(l.next) == 3
 //@ ensures [C03] keeps-string-state: l.gotString == old(l.gotString)
+//@ ensures [C03] appends-one-code-point: len(l.errors) == old(len(l.errors)) ==> outCount() == 1 && is[rune](outLast()) && as[rune](outLast()) > 0 && as[rune](outLast()) <= 255
 //@ ensures [C04] errors-only-grow: len(l.errors) >= old(len(l.errors))
 //@ ensures [C04] invalid-is-error: r0 == -1 && ncalls(l.next) < 3 ==> len(l.errors) > old(len(l.errors))
 
@@ -262,6 +266,10 @@ func outLast() any                               { return nil }
 
 //@ func (*lexer).scanComment
 //@ props C03 C04
+//@ requires [C03] lookahead-just-read: ch >= 0 && ch < 128 ==> l.lastCharLen == 1 && l.srcPos >= 1 && rune(l.srcBuf[l.srcPos-1]) == ch
+//@ loop 1 invariant [C03] lookahead-just-read-inv: ch >= 0 && ch < 128 ==> l.lastCharLen == 1 && l.srcPos >= 1 && rune(l.srcBuf[l.srcPos-1]) == ch
+//@ loop 1 invariant [C04] buffer-same: sameSlice(l.srcBuf, old(l.srcBuf)) && l.srcEnd == old(l.srcEnd)
+//@ ensures [C03] resumes-right-after-close: old(ch) == '*' && len(l.errors) == old(len(l.errors)) ==> l.srcPos-l.lastCharLen >= 2 && l.srcBuf[l.srcPos-l.lastCharLen-1] == '/' && l.srcBuf[l.srcPos-l.lastCharLen-2] == '*'
 //@ modifies l.srcPos, l.lastCharLen, l.column, l.line, l.lastLineLen, l.errors, l.tokEnd
 //@ loop 1 invariant [C04] errors-grow: len(l.errors) >= old(len(l.errors))
 //@ ensures [C03] not-a-comment: ch != '*' ==> r0 == '/' && ncalls(l.next) == 0
